@@ -17,6 +17,9 @@ from vt.env.blerig import BleRig
 from vt.ref import crypto as C
 
 ALPH = ["sub", "timer", "hold-config", "notify", "release", "bcast:old", "drop", "use"]
+# catch-up polls: the accessory's regular advertisement shows a new state number while the link is down, the pairing connects to poll - and
+# genuine broadcasts keep arriving while that connection attempt is still under way, succeeds or fails
+ALPH_POLL = ["drop", "hold-connect", "regular-adv", "bcast:+1", "bcast:same", "connect-fails", "connect-ok", "use", "timer"]
 OLD_GSN, MARK = 5, 0x1234
 
 
@@ -36,7 +39,9 @@ class ConnH(explore.Harness):
         self.viol = []
         self.hold = False
         self.held = []
-        self.n = {"drop": 0, "notify": 0, "bcast": 0}
+        self.n = {"drop": 0, "notify": 0, "bcast": 0, "adv": 0, "gen": 0}
+        self.model_last = base  # the newest state number the accessory has shown (regular advertisement) or a broadcast was accepted with
+        self.last_genuine = None
         self.depth_used = 0
         self.subscribed = False
         h = self
@@ -87,6 +92,21 @@ class ConnH(explore.Harness):
             elif a == "bcast:old":
                 if self.n["bcast"] < 2:
                     m.append(a)
+            elif a == "hold-connect":
+                if not getattr(self.rig, "hold_connect", False) and link is None:
+                    m.append(a)
+            elif a in ("connect-fails", "connect-ok"):
+                if any(not f.done() for f in getattr(self.rig, "connecting", [])):
+                    m.append(a)
+            elif a == "regular-adv":
+                if self.n["adv"] < 2 and self.model_last < 65000:
+                    m.append(a)
+            elif a == "bcast:+1":
+                if self.n["gen"] < 2 and self.model_last < 65000:
+                    m.append(a)
+            elif a == "bcast:same":
+                if self.last_genuine is not None and self.n["bcast"] < 2:
+                    m.append(a)
             else:
                 m.append(a)
         return m
@@ -115,6 +135,56 @@ class ConnH(explore.Harness):
                     f.set_result(None)  # the operation fails with "not connected" when it resumes
         elif label == "use":
             self.loop.create_task(self.pairing.get_characteristics([(1, 10)]))
+        elif label == "hold-connect":
+            self.rig.hold_connect = True
+        elif label in ("connect-fails", "connect-ok"):
+            from bleak.exc import BleakError
+
+            f = next(f for f in self.rig.connecting if not f.done())
+            if label == "connect-fails":
+                f.set_exception(BleakError("connection attempt failed"))
+            else:
+                f.set_result(None)
+        elif label == "regular-adv":
+            # the accessory changed state while nobody was connected: its regular advertisement carries the new state number
+            from vt.props.c19 import ble_adv
+
+            self.n["adv"] += 1
+            self.model_last += 1
+            self.acc.gsn = self.model_last
+            dev, adv = ble_adv("aa:bb:cc:dd:ee:ff", gsn=self.model_last, cn=self.acc.cn, name="Acc")
+            try:
+                self.rig.controller._device_detected(dev, adv)
+            except Exception as e:  # noqa: BLE001
+                self.viol.append((f"scanner-callback-raises:{type(e).__name__}:regular-adv", {"err": str(e)[:160]}))
+        elif label in ("bcast:+1", "bcast:same"):
+            from bleak.backends.device import BLEDevice
+            from bleak.backends.scanner import AdvertisementData
+            from vt.props.c18 import adv_bytes, seal
+
+            if label == "bcast:+1":
+                self.n["gen"] += 1
+                g = self.model_last + 1
+                self.acc.gsn = g  # (the accessory that broadcasts this state number answers it to a protocol-configuration request as well)
+                payload = adv_bytes(self.adv_id, seal(g, g, 10, struct.pack("<Q", 0x4000 + g % 1000), key=self.key, aad=self.adv_id))
+                fresh = True
+            else:
+                self.n["bcast"] += 1
+                g, payload = self.last_genuine
+                fresh = False
+            before = (self.pairing.description.state_num if self.pairing.description else None, len(self.log))
+            try:
+                self.rig.controller._device_detected(BLEDevice("00:11:22:33:44:55", "Acc", {}), AdvertisementData(local_name="Acc", manufacturer_data={76: payload}, service_data={}, service_uuids=[], tx_power=None, rssi=-60, platform_data=()))
+            except Exception as e:  # noqa: BLE001
+                self.viol.append((f"scanner-callback-raises:{type(e).__name__}:connected", {"err": str(e)[:160]}))
+            new = [ev for ev in self.log[before[1]:] if any(v.get("value") == 0x4000 + g % 1000 for v in ev.values())]
+            if fresh:
+                self.last_genuine = (g, payload)
+                if new:
+                    self.model_last = g  # accepted (the key the pairing holds may legitimately differ after a key regeneration: not demanded)
+            elif new and g <= self.model_last:
+                self.viol.append(("connected:genuine-broadcast-accepted-a-second-time", {"gsn": g, "tracked_before": before[0], "tracked_after": self.pairing.description.state_num if self.pairing.description else None,
+                                                                                     "connection_attempts_in_flight": sum(1 for f in getattr(self.rig, "connecting", []) if not f.done())}))
         elif label == "bcast:old":
             self.n["bcast"] += 1
             before = (self.pairing.description.state_num if self.pairing.description else None, len(self.log))
@@ -148,7 +218,7 @@ class ConnH(explore.Harness):
         link = self._link()
         timers = tuple(sorted(round(h._when - self.loop.time(), 6) for h in self.loop._scheduled if not h._cancelled))
         bk = getattr(pr, "_broadcast_decryption_key", None)
-        return (self.subscribed, self.hold, sum(1 for f in self.held if not f.done()), tuple(sorted(self.n.items())), link is not None, tuple(sorted(link.notifying)) if link else (), timers,
+        return (self.model_last, self.last_genuine is not None, getattr(self.rig, "hold_connect", False), sum(1 for f in getattr(self.rig, "connecting", []) if not f.done()), self.subscribed, self.hold, sum(1 for f in self.held if not f.done()), tuple(sorted(self.n.items())), link is not None, tuple(sorted(link.notifying)) if link else (), timers,
                 pr.description.state_num if pr.description else None, getattr(getattr(pr, "_accessories_state", None), "state_num", None), bytes(getattr(pr, "broadcast_key", b"") or b"")[:4],
                 pr._fetched_gsn_this_session, pr._had_notify_this_session, pr._restore_pending, tuple(sorted(pr._notifications)), len(self.log), _canon.tasks_sig(self.loop))
 
@@ -156,7 +226,7 @@ class ConnH(explore.Harness):
         return f"tracked={self.pairing.description.state_num if self.pairing.description else None},held={sum(1 for f in self.held if not f.done())},log={min(len(self.log), 4)}"
 
     def close(self):
-        for f in self.held:
+        for f in self.held + getattr(self.rig, "connecting", []):
             if not f.done():
                 f.cancel()
         self.rig.close()
